@@ -211,6 +211,10 @@ FPNonCommuting(c) == ~QEq(QMul(FPParent(c), FPTarget(c)), QMul(FPTarget(c), FPPa
 \*      "vec"   : specifying form `on V` (base at V).
 OnAxis(c) == IF c.dirk = "default" THEN 3 ELSE (CHOOSE k \in 1..3 : c.dir[k] # 0)
 OnLift(c) == c.ndim[3] \div 2 + c.ct \div 2
+\* with an explicit baseOffset c.bo (global frame: regions without a preferred orientation and `on V`): the BASE
+\* = position + baseOffset goes to the hit point, so position = hit - baseOffset + (contactTolerance / 2) up.
+\* The default baseOffset (0, 0, -height/2) gives OnLift along z.
+OnOff(c) == <<-c.bo[1], -c.bo[2], c.ct \div 2 - c.bo[3]>>
 InCross(P, b, ax) == \A j \in (1..3) \ {ax} : b.lo[j] < P[j] /\ P[j] < b.hi[j]
 \* faces of the boxes met by the ray from P along sg * e_ax, as <<distance, face coordinate, outward sign>>
 RayFaces(c, ax, sg) ==
@@ -226,17 +230,19 @@ OnBoxes(c) ==
       h == FirstHit(OnCandidates(c))                       \* the NEAREST of the (up to) two first hits
       hit == IF InsideVolume(c) THEN c.P ELSE [c.P EXCEPT ![ax] = h[2]]
       up == IF c.rk = "hollow" THEN VScale(h[3], <<IF ax = 1 THEN 1 ELSE 0, IF ax = 2 THEN 1 ELSE 0, IF ax = 3 THEN 1 ELSE 0>>) ELSE Ez
-  IN [pos |-> [p |-> VAdd(hit, VScale(OnLift(c), up)), ps |-> 4], up |-> up, ups |-> 1]
+  IN [pos |-> [p |-> IF c.rk = "stack" THEN VAdd(hit, OnOff(c)) ELSE VAdd(hit, VScale(OnLift(c), up)), ps |-> 4], up |-> up, ups |-> 1]
 \* the onSurface of an Object is its top surface: the faces of its occupied space whose normal points
 \* (globally) up -- for a box with a cube-group orientation, the top face of its world bounding box
 OnObjBox(c) == BoxOf(c.ref.p, Rot(c.ref).m, <<c.rdim[1] \div 2, c.rdim[2] \div 2, c.rdim[3] \div 2>>)
 OnObjTop(c) ==
   LET hit == <<c.P[1], c.P[2], OnObjBox(c).hi[3]>>
   IN [pos |-> [p |-> VAdd(hit, <<0, 0, OnLift(c)>>), ps |-> 4], up |-> Ez, ups |-> 1]
-OnVec(c) == [pos |-> [p |-> VAdd(c.P, <<0, 0, OnLift(c)>>), ps |-> 4], up |-> Ez, ups |-> 1]
+OnVec(c) == [pos |-> [p |-> VAdd(c.P, OnOff(c)), ps |-> 4], up |-> Ez, ups |-> 1]
 OnResult(c) == CASE c.rk \in {"hollow", "stack"} -> OnBoxes(c) [] c.rk = "objtop" -> OnObjTop(c) [] c.rk = "vec" -> OnVec(c)
 OnSpec(c) == Plain(OnResult(c).pos, IF c.rk \in {"stack", "vec"} THEN Own(c.own) ELSE NoQ)
 OnLemma(c) ==
+  /\ (c.bo = <<0, 0, -(c.ndim[3] \div 2)>> => OnOff(c) = <<0, 0, OnLift(c)>>)      \* the default base is the bottom centre
+  /\ (c.rk \in {"hollow", "objtop"} => c.bo = <<0, 0, -(c.ndim[3] \div 2)>>)
   /\ (c.rk \in {"hollow", "stack"} =>
         /\ \A n \in 1..Len(c.boxes), k \in 1..3 : c.P[k] # c.boxes[n].lo[k] /\ c.P[k] # c.boxes[n].hi[k]   \* off every face plane
         /\ (~InsideVolume(c) => OnCandidates(c) # {})
